@@ -306,7 +306,7 @@ def adjudicate(check, units, t, ob):
             rec['mismatch'] = bad
             rec['inputs'] = xs
     rec['confirmed'] = confirmed
-    d = os.path.join(os.path.dirname(os.path.dirname(check.work)), 'replays')
+    d = check.replay_dir
     os.makedirs(d, exist_ok=True)
     path = os.path.join(d, re.sub(r'[^\w.-]+', '_', ob.name) + '.replay.json')
     json.dump(rec, open(path, 'w'), indent=1)
